@@ -31,8 +31,11 @@ type RunResult struct {
 // Variant names the configuration of a run: "faults" (swarm of permitted fault kinds) or
 // "faultfree" (the separate fault-free configuration).
 func VariantFor(runIndex int) string {
-	if runIndex%5 == 4 {
+	switch runIndex % 5 {
+	case 4:
 		return "faultfree"
+	case 3:
+		return "assets" // as "faults", plus asset store faults (F4) where the property permits them
 	}
 	return "faults"
 }
@@ -48,6 +51,7 @@ func RunOne(prop string, seed uint64, variant string, vals []uint64, opts ...fun
 	}
 	cfg := ProfileFor(prop)
 	cfg.FaultFree = variant == "faultfree"
+	cfg.Allow.Assets = cfg.Allow.Assets && variant == "assets"
 	for _, o := range opts {
 		o(cfg)
 	}
@@ -90,9 +94,20 @@ func ProfileFor(prop string) *Config {
 	all := Faults{Restart: true, Delivery: true, Service: true, Clock: true, Stale: true}
 	cfg := &Config{Prop: prop, StopOn: prop, Allow: all, Gen: gen.Profile{MaxFlows: 5, MaxNodes: 7, Voice: true}}
 	switch prop {
+	case "C01":
+		cfg.Allow.Assets = true
+		cfg.Oracles = []Oracle{C01{}}
+	case "C03":
+		cfg.Oracles = []Oracle{C03{}}
+	case "C05":
+		cfg.Allow.Assets = true
+		cfg.Oracles = []Oracle{&C05{}}
+	case "C06":
+		cfg.Oracles = []Oracle{C06{}}
 	case "C02":
 		// F4 is off for the comparison (different assets legitimately behave differently)
 		cfg.Shadow = true
+		cfg.Gen.NoWebhookRefs = true
 	case "C08":
 		cfg.Allow.Assets = false
 		cfg.Gen.NumberFormat = true
